@@ -18,7 +18,7 @@ func init() {
 	register(&Property{
 		Meta: report.Meta{
 			Property:    "C11",
-			Explanation: "Finite tables read off the CFG of pkg/policy and checked against the algebraic laws of the statement: (R1) exhaustiveness — the Kind* constants, the cases of matchStatement and of statementFromIPLD and the struct type each case asserts/creates agree; (R2) comparator wiring — each ordering kind passes its own comparison function to isOrdered, the truth sets of gt/gte/lt/lte over {-1,0,1} are {1},{0,1},{-1},{-1,0}, isOrdered compares (actual, expected) only under same-kind facts, == uses DeepEqual(value, selected), not maps T<->F and keeps N/O; (R3) for and/or/all/any the per-child transition table (child result in {True,False,NoData,OptionalNoData} -> continue | return v) and the fall-off value are read off the loop CFG; the fold semantics they define is then enumerated exhaustively over all child-result lists up to length 3 and checked for permutation invariance, monotonicity of and/all, and the classical corners; (R4) selector error -> NoData, optional miss -> OptionalNoData for all eight selector-bearing kinds, like on a non-string and all/any on a non-list -> False; (R5) PartialMatch fails only on False, so full match implies partial match and concatenation is conjunction. Truth of individual comparisons on concrete data (DeepEqual, NaN, selector resolution, glob) is not decided here. Leaf statements: on every path with a selected value the result is True / False exactly as the comparison atom (DeepEqual / isOrdered with the kind's predicate / glob.Match), wherever the comparison is written (case body, local closure, helper: all spliced into the paths, interface getters devirtualised on the asserted type), and True is answered on no other path; isOrdered answers false only for kind mismatch, conversion error, NaN, infinity; every exported constructor returns a function that builds the statement of its kind from exactly its own parameters. policy.assemble: one emitting instruction in the loop, dominating every back edge, loop left only through the header or a failing exit, the statement emitted is the result of the constructor of the iteration. For and / or / all / any: a path that returns before reaching the fold loop may only answer NoData / OptionalNoData, False for a non-list value, or the empty connective's constant.",
+			Explanation: "Finite tables read off the CFG of pkg/policy and checked against the algebraic laws of the statement: (R1) exhaustiveness — the Kind* constants, the cases of matchStatement and of statementFromIPLD and the struct type each case asserts/creates agree; (R2) comparator wiring — each ordering kind passes its own comparison function to isOrdered, the truth sets of gt/gte/lt/lte over {-1,0,1} are {1},{0,1},{-1},{-1,0}, isOrdered compares (actual, expected) only under same-kind facts, == uses DeepEqual(value, selected), not maps T<->F and keeps N/O; (R3) for and/or/all/any the per-child transition table (child result in {True,False,NoData,OptionalNoData} -> continue | return v) and the fall-off value are read off the loop CFG; the fold semantics they define is then enumerated exhaustively over all child-result lists up to length 3 and checked for permutation invariance, monotonicity of and/all, and the classical corners; (R4) selector error -> NoData, optional miss -> OptionalNoData for all eight selector-bearing kinds, like on a non-string and all/any on a non-list -> False; (R5) PartialMatch fails only on False, so full match implies partial match and concatenation is conjunction. Truth of individual comparisons on concrete data (DeepEqual, NaN, selector resolution, glob) is not decided here. Leaf statements: on every path with a selected value the result is True / False exactly as the comparison atom (DeepEqual / isOrdered with the kind's predicate / glob.Match), wherever the comparison is written (case body, local closure, helper: all spliced into the paths, interface getters devirtualised on the asserted type), and True is answered on no other path; isOrdered answers false only for kind mismatch, conversion error, NaN, infinity; every exported constructor returns a function that builds the statement of its kind from exactly its own parameters. policy.assemble: one emitting instruction in the loop, dominating every back edge, loop left only through the header or a failing exit, the statement emitted is the result of the constructor of the iteration. For and / or / all / any: a path that returns before reaching the fold loop may only answer NoData / OptionalNoData, False for a non-list value, or the empty connective's constant. (R3) in matchStatement and helpers its code moved into, the block a loop test exits to has no predecessor inside the loop other than the header.",
 			Assumptions: []string{"datamodel.DeepEqual and cmp.Compare semantics", "selector resolution (C12) and glob matching (C13)"},
 			Trusted:     []string{"golang.org/x/tools/go/ssa v0.29.0", "go-ipld-prime", "package cmp"},
 			NotDecided:  []string{"DeepEqual on concrete nodes", "numeric corner cases beyond the kind facts (NaN/Inf are rejected by explicit facts)", "statement truth on concrete data"},
